@@ -46,7 +46,7 @@ _SENTINEL_KINDS = ["empty", "short", "long", "long", "dangling_symlink", "symlin
 
 def plan(tier):
     if tier == "thorough":
-        return {"runs": 3000, "chunk": 10, "wall_budget": 3300, "resample": 10}
+        return {"runs": 1200, "chunk": 4, "wall_budget": 3300, "resample": 10}
     return {"runs": 160, "chunk": 4, "wall_budget": 900, "resample": 6}
 
 
